@@ -110,10 +110,14 @@ def telecentric(c):
     c.ensure_eq('C03.telecentric.chief_parallel_to_axis', D0[1], 0)
     c.ensure_eq('C03.telecentric.chief_parallel_to_axis', D0[2], 1)
     c.ensure_eq('C03.telecentric.starts_at_field_point', c.val(r0.y), Hy * 5.0)
-    # marginal ray: direction cosine to the axis equals the stated numerical aperture
+    # marginal ray: the stated numerical aperture is n0 sin(theta) in the object-space medium (any index; the clause used to read
+    # sin(theta) = NA, which is what the library did -- defect fixed in 4c6ece2)
+    n0 = v['n'][0]
+    c.require(apv < n0)
+    sin0 = apv / n0
     r1 = lens.ray_generator.generate_rays(0.0, Hy, c.arr(0.0), c.arr(1.0), 0.55)
     D1 = dir_of(c, r1)
-    c.ensure_eq('C03.telecentric.marginal_sine_is_NA', D1[1], apv)
+    c.ensure_eq('C03.telecentric.marginal_sine_is_NA', n0 * D1[1], apv)
     c.ensure_eq('C03.telecentric.unit', norm2(D1), 1)
     # any pupil point, skew ones included: the slopes are (Px, Py) tan(theta_max) with sin(theta_max) = NA, i.e. the direction
     # is parallel to (Px NA, Py NA, sqrt(1 - NA^2)) -- a circular cone whose rim carries the stated NA
@@ -121,8 +125,8 @@ def telecentric(c):
     c.require(Px * Px + Py * Py <= 1)
     r2 = lens.ray_generator.generate_rays(0.0, Hy, c.arr(Px), c.arr(Py), 0.55)
     D2 = dir_of(c, r2)
-    cz = c.sqrt(1 - apv * apv)
-    cr = cross(D2, (Px * apv, Py * apv, cz))
+    cz = c.sqrt(1 - sin0 * sin0)
+    cr = cross(D2, (Px * sin0, Py * sin0, cz))
     for i in range(3):
         c.ensure_eq('C03.telecentric.direction_for_any_pupil_point', cr[i], 0)
     c.ensure_eq('C03.telecentric.unit', norm2(D2), 1)
@@ -351,3 +355,8 @@ def requery_object_distance(c):
     cr = cross(D, tuple(P1[i] - P0[i] for i in range(3)))
     for i in range(3):
         c.ensure_eq('C03.requery.aimed_at_the_pupil_behind_the_first_surface_after_the_distance_edit', cr[i], 0)
+
+
+# concrete inputs found by the defect-hunting sub-agents (bounded replay, see contracts/hunt.py)
+from . import hunt as _hunt  # noqa: E402
+_hunt.register('C03')
